@@ -7,9 +7,23 @@
     the middleware are triples (state, returned acknowledgement — None = Go nil —, hook path — None = hook not called). *)
 From Coq Require Import List ZArith Bool.
 From Teleport Require Import Base.Bytes Base.Outcome Model.Ics20 Model.Ics20Check Proofs.Ics20 Proofs.Ics20Convert
-  Proofs.Ics20Toy.
+  Proofs.Ics20Toy Proofs.Ics20Source.
 Import ListNotations.
 Local Open Scope Z_scope.
+
+(** ** The model's hook is the one the Go source describes.
+    tools/gotocoq/ics20hook regenerates from x/aggregate/keeper/ibc_hook.go and x/aggregate/ibc_middleware.go what
+    every return statement of Keeper.OnRecvPacket returns, whether the receiver-length guard is there, on which
+    context ConvertCoin runs, where write() is called and the statement shape of the middleware; the hook model
+    instantiated with THOSE parameters is the [hook] all theorems below are about.  A `return nil`, a dropped guard,
+    a conversion on the parent context or a reshaped middleware breaks this obligation. *)
+Theorem C16_source_is_model :
+  src_shape_ok = true /\
+  forall state sha256 decode parse_int from_bech32 is_registered convert,
+    hook_from_source state sha256 decode parse_int from_bech32 is_registered convert
+    = hook state sha256 decode parse_int from_bech32 is_registered convert.
+Proof. split; [vm_compute; reflexivity|intros; reflexivity]. Qed.
+Print Assumptions C16_source_is_model.
 
 (** ** Transparency *)
 
